@@ -61,6 +61,11 @@ func (s *StateDBWrapper) Finish() {
 		acct := s.acctHandler.FindOrNewAccount(addr[:], s.exec)
 		acct.SetBalance(amt)
 		acct.SetNonce(nonce)
+		if acct.GetCode() == nil && s.StateDB.GetCodeSize(addr) > 0 {
+			// a contract created by another contract (CREATE/CREATE2) has no deploy tx:
+			// without the marker a later transfer to it would not be routed to the EVM.
+			acct.SetCode(s.StateDB.GetCodeHash(addr).Bytes())
+		}
 
 		_ = s.acctHandler.SetAccountCommittable(acct, s.exec)
 
